@@ -70,9 +70,6 @@ ASSUMPTIONS = [
     'directories, the stdin of its action, values of symbols, exists-assertions, and whether a 1.5 s sleep survives '
     '(timeout carried over from a case that set `timeout = 1`); a sleeping case never sets a timeout itself, so no '
     'outcome depends on a race',
-    'KF-C17-1 defect model: the in-suite observation of a case equals its standalone observation after the symbols '
-    'used as `-line-nums` ranges by suite-level instructions are given the values that an EARLIER case of the same '
-    'run defined (verified by running that variant); any other difference stays a violation',
     'error texts on stderr are not compared between the ways of running a case (the property speaks of outcomes)',
 ]
 
@@ -391,46 +388,6 @@ def _observe_standalone(ws, argv):
     return run, (ident, groups[0][1] if groups else []), None
 
 
-def _ss_kf1_candidates(case, order, pos):
-    """Defect model KF-C17-1: a suite-level `-line-nums` range given by a symbol keeps the text it was resolved to
-    for an earlier case of the same suite run.  -> list of {symbol name: (type, value)} overrides for the case at
-    position `pos` of `order`, one per way of taking the ranges of the line-nums units from earlier cases."""
-    c = case['cases'][order[pos]]
-    per_unit = []
-    for k, ui in enumerate(case['units']):
-        if ui['t'] not in units.LINENUMS_UNITS:
-            continue
-        u = units.BY_ID[ui['t']]
-        roles = [r for r, pool in sorted(u['syms'].items()) if pool == 'RANGE' and ui['suite_defs'].get(r) is None]
-        if not roles:
-            continue
-        choices = [None]
-        for j in order[:pos]:
-            e = case['cases'][j]
-            vals = {}
-            for r in roles:
-                tv = units.pool_value('RANGE', e['defs']['%d.%s' % (k, r)]['v'])
-                if tv is None or tv[0] != 'string':
-                    vals = None  # the earlier case never got as far as resolving the range
-                    break
-                vals[units.sym_name(str(k), r)] = tv
-            if vals and vals not in choices:
-                choices.append(vals)
-        per_unit.append(choices)
-    out = []
-
-    def rec(i, acc):
-        if i == len(per_unit):
-            if acc:
-                out.append(dict(acc))
-            return
-        for ch in per_unit[i]:
-            rec(i + 1, acc + (list(ch.items()) if ch else []))
-
-    rec(0, [])
-    return out[:12]
-
-
 def check_suite_symbols(case) -> Verdict:
     files = units.render(case)
     suite_text = files.pop('exactly.suite')
@@ -457,7 +414,6 @@ def check_suite_symbols(case) -> Verdict:
         d['files'] = ss_render(case)
         return fail('suite_symbols/' + bucket, d, labels=labels, nontrivial=nontrivial)
 
-    known = None
     with driver.Workspace() as ws:
         ws.write_files(units.HOME_FILES)
         ws.write_files(files)
@@ -504,30 +460,12 @@ def check_suite_symbols(case) -> Verdict:
                 if got == ref[cid]:
                     continue
                 what = 'identifier/%s/%s' % (ref[cid][0], got[0]) if got[0] != ref[cid][0] else 'observations'
-                # defect model KF-C17-1
-                for override in _ss_kf1_candidates(case, order, pos):
-                    ws.write('kf1-variant.case', units.render_case(case, cases[i], override))
-                    _, pred, problem = _observe_standalone(ws, ['kf1-variant.case'])
-                    if problem is None and pred == got:
-                        known = Verdict(ok=False, known='KF-C17-1',
-                                        bucket='suite_symbols/line-nums-range-of-an-earlier-case',
-                                        detail={'what': what, 'case': cid, 'order': order, 'position': pos,
-                                                'standalone': [ref[cid][0], ['%s|%s' % l for l in ref[cid][1]]],
-                                                'in suite': [got[0], ['%s|%s' % l for l in got[1]]],
-                                                'explained by the ranges of an earlier case': {
-                                                    k: v[1] for k, v in override.items()},
-                                                'files': ss_render(case)},
-                                        labels=labels + ['KF-C17-1'], nontrivial=nontrivial)
-                        break
-                else:
-                    return bad('in-suite-differs-from-standalone/' + what, run, case_file=cid + '.case', order=order,
-                               position_in_suite=pos,
-                               standalone=[ref[cid][0], ['%s|%s' % l for l in ref[cid][1]]],
-                               in_suite=[got[0], ['%s|%s' % l for l in got[1]]])
+                return bad('in-suite-differs-from-standalone/' + what, run, case_file=cid + '.case', order=order,
+                           position_in_suite=pos,
+                           standalone=[ref[cid][0], ['%s|%s' % l for l in ref[cid][1]]],
+                           in_suite=[got[0], ['%s|%s' % l for l in got[1]]])
             if (final, run.r.exit_code) != (('OK', 0) if all(i in SUCCESS for _, i in events) else ('ERROR', 4)):
                 return bad('suite-run/final', run, order=order)
-    if known is not None:
-        return known
     return Verdict(True, nontrivial=nontrivial, labels=sorted(set(labels)), sample=ss_render(case))
 
 
